@@ -1,5 +1,6 @@
 """C15 — A file agentpack wrote stays tracked as managed until agentpack removes it."""
-import os, random
+import os, random, json
+from vlib import world
 from vlib.common import *
 from vlib import deploysim as ds
 from vlib.impl import Sandbox
@@ -82,6 +83,68 @@ def failed_apply_stream(ctx, n):
         finally:
             sb.close()
 
+def entry_points_stream(ctx, n):
+    """the other commands that install files through the shared apply path: `init --bootstrap` on a fresh home,
+    `bootstrap --scope ...`, then the same again (only some assets change: the user removed or edited one).  Every
+    file a command reports as written — and every operator file still on disk from an earlier run — is listed by the
+    manifest of the directory root it lies in"""
+    import shutil
+    from vlib.impl import Sandbox
+    rng = ctx.rng
+    for i in range(n):
+        sb = Sandbox('c15e')
+        try:
+            fresh = rng.random() < 0.6
+            steps = []
+            if fresh:
+                shutil.rmtree(sb.repo, ignore_errors=True)
+                steps.append(['init', '--bootstrap'] if rng.random() < 0.7 else ['init'])
+            else:
+                sb.git_init_project()
+                world.write_config(sb.repo, {'version': 1, 'profiles': {'default': {'include_tags': ['base']}}, 'targets': {'codex': {'mode': 'files', 'scope': 'both', 'options': {}},
+                                                                                                                              'claude_code': {'mode': 'files', 'scope': 'both', 'options': {}}}, 'modules': []})
+            for _ in range(rng.randrange(1, 3)):
+                steps.append(['bootstrap', '--scope', rng.choice(['user', 'project', 'both'])])
+            written = {}
+            tags = []
+            for argv in steps:
+                if written and rng.random() < 0.5:
+                    q = rng.choice(sorted(written))
+                    if os.path.exists(q):
+                        if rng.random() < 0.5: os.remove(q); tags.append('user:delete')
+                        else: world.write(q, b'edited\n'); tags.append('user:edit')
+                p = sb.cli(argv + ['--yes', '--json'], cwd=(sb.repo if fresh and os.path.isdir(sb.repo) else None))
+                try: doc = json.loads(p.stdout.decode('utf-8', 'replace'))
+                except Exception: doc = None
+                rec = {'stream': 'entry_points', 'index': i, 'argv': argv, 'history': steps, 'tags': list(tags), 'stdout': p.stdout.decode('utf-8', 'replace')[:600]}
+                if not doc or not doc.get('ok'):
+                    ctx.notes.append('entry_points %d: %s not judged (%s)' % (i, ' '.join(argv), p.stdout.decode('utf-8', 'replace')[:120])); break
+                data = doc['data'].get('bootstrap', doc['data']) if isinstance(doc['data'], dict) else {}
+                for c in (data.get('changes') or []) if data.get('applied') else []:
+                    if c['op'] in ('create', 'update'): written[c['path']] = c['target']
+                    elif c['op'] == 'delete': written.pop(c['path'], None)
+                ctx.count('entry_points', key=(tuple(argv), bool(data.get('applied')), tuple(tags)), nontrivial=bool(data.get('applied')), tags=['cmd:' + argv[0]] + tags)
+                for q, t in sorted(written.items()):
+                    if not os.path.exists(q): continue
+                    listed = False
+                    d = os.path.dirname(q)
+                    while d.startswith(sb.root) and d != sb.root:
+                        for mn in (ds.mf_name(t), ds.LEGACY):
+                            mp = os.path.join(d, mn)
+                            if os.path.exists(mp):
+                                try:
+                                    v = json.load(open(mp))
+                                    if v.get('tool') == t and any(os.path.normpath(os.path.join(d, e['path'])) == q for e in v.get('managed_files', [])):
+                                        listed = True
+                                except Exception: pass
+                        if listed: break
+                        d = os.path.dirname(d)
+                    if not listed:
+                        cls = 'K15a'    # (bootstrap and deploy sharing a root is the known class; this stream has no deploy)
+                        ctx.violation('a file %s wrote and has not deleted is not listed in a manifest of its root: %s' % (argv[0], q.replace(sb.root, '')), dict(rec, path=q.replace(sb.root, '')))
+        finally:
+            sb.close()
+
 def run(ctx):
     quick = ctx.tier == 'quick'
     ctx.rule = ('ledger_hist: histories over {deploy(config edits incl. option flips that move/switch off roots, --target, --adopt, all entry points), bootstrap --scope user, '
@@ -95,6 +158,7 @@ def run(ctx):
     # two targets sharing one root directory (codex project scope + zed in the project root), deploys with and without --target
     ds.run_hist_stream(ctx, 6 if quick else 80, 5, props={'C15'}, weights={'deploy': 1}, stream='shared_root_hist', setup=ds.setup_shared_root)
     failed_apply_stream(ctx, 24 if quick else 300)
+    entry_points_stream(ctx, 10 if quick else 120)
     ds.run_hist_stream(ctx, 5 if quick else 60, 8, props={'C15'}, weights={'deploy': 1}, stream='bootstrap_rollback',
                        plan_script=ds.hist_bootstrap_then_rollback, setup=ds.setup_two_roots)
     # deploys that each touch one root only, then rollbacks: every file rollback (re)writes must be listed, every file it deletes unlisted
